@@ -517,10 +517,10 @@ package common
 //@   ensures[prefix-of-the-path] len(preStr) > 0 ==> sametext(preStr, pathFile) && off(preStr) == off(pathFile)
 //@ end
 
-// ---- C08: which files belong to the workspace ----
+// ---- C08 / C18: which files belong to the workspace (only for those does a create / delete event re-resolve the module strings of the other files) ----
 // a file below ANY workspace folder is in (fix 17afbda: the prefix test for the additional folders was reversed)
 //@ func (*DirManager).IsInDir
-//@   props C08
+//@   props C08 C18
 //@   ensures[file-below-an-additional-workspace-folder-is-in] len(d.mainDir) > 0 && exists(k, 0, len(d.subDirVec), hasPrefix(strFile, d.subDirVec[k])) ==> result
 //@   ensures[file-below-the-root-folder-is-in] len(d.mainDir) > 0 && hasPrefix(strFile, d.mainDir) ==> result
 //@   ensures[nothing-is-in-without-a-root] len(d.mainDir) == 0 ==> !result
@@ -562,4 +562,18 @@ package common
 //@   props C14
 //@   requires completeVar != nil && len(completeVar.StrVec) >= 1
 //@   ensures[a-bare-self-prefix-is-left-as-it-is] old(len(completeVar.StrVec) == 1 && !completeVar.LastEmptyFlag) ==> len(completeVar.StrVec) == 1 && completeVar.StrVec == old(completeVar.StrVec) && hits("strings.Split#0") == 0
+//@ end
+
+// ---- C04: one location per name component of an assignment target ----
+// handleNotNeedDefine indexes this list in parallel with the name components (a.b.c -> 3 locations): a parenthesised
+// prefix contributes the locations of what it encloses (not one location for the whole parenthesis), an access the
+// locations of its prefix followed by those of its key, a name or a string exactly its own
+//@ func GetTableLocList
+//@   props C04
+//@   at call GetTableLocList#0 before assert[a-parenthesised-prefix-is-looked-into] typeis(node, "*ast.ParensExp") && arg0 == as(node, "*ast.ParensExp").Exp
+//@   at call GetTableLocList#1 before assert[an-access-contributes-its-prefix-first] typeis(node, "*ast.TableAccessExp") && arg0 == as(node, "*ast.TableAccessExp").PrefixExp
+//@   at call GetTableLocList#2 before assert[then-its-key] typeis(node, "*ast.TableAccessExp") && arg0 == as(node, "*ast.TableAccessExp").KeyExp
+//@   ensures[a-parenthesised-prefix-contributes-the-locations-of-what-it-encloses] typeis(node, "*ast.ParensExp") ==> hits("GetTableLocList#0") == 1 && len(locList) == len(lastresult("GetTableLocList#0"))
+//@   ensures[an-access-contributes-prefix-then-key] typeis(node, "*ast.TableAccessExp") ==> hits("GetTableLocList#1") == 1 && hits("GetTableLocList#2") == 1 && len(locList) == len(lastresult("GetTableLocList#1")) + len(lastresult("GetTableLocList#2"))
+//@   ensures[a-name-or-a-string-contributes-exactly-one-location] typeis(node, "*ast.NameExp") || typeis(node, "*ast.StringExp") ==> len(locList) == 1
 //@ end
